@@ -253,8 +253,14 @@ func checkC04(c *km.Ctx) {
 							}
 							for _, pair := range [][2]ssa.Value{{f.X, f.Y}, {f.Y, f.X}} {
 								base, fld, ok := km.FieldOfLoad(km.Unwrap(resolve(pair[0])))
-								if !ok || resolve(base) != u.X {
+								if !ok {
 									continue
+								}
+								if rb := resolve(base); rb != u.X {
+									// the struct may be the one a parsing helper validated and handed back by value
+									if !cellIsResultOf(u.X, rb) || fieldStoredIn(u.X, fld) {
+										continue
+									}
 								}
 								cs, ok := km.ConstString(resolve(pair[1]))
 								if !ok {
@@ -464,6 +470,63 @@ func checkC04(c *km.Ctx) {
 		r.Explain, r.NotDecided, r.Assume = saveExplain, saveND, saveAs
 		r.Remap = nil
 	}
+}
+
+// cellIsResultOf: the local cell `target` is assigned exactly once, from a call to the module function that owns the
+// cell `inner`, and every return of that function hands back either the contents of `inner` or a zero value - so
+// what the function established about inner's fields on its success path holds for target's fields after the call.
+func cellIsResultOf(target, inner ssa.Value) bool {
+	ia, ok := inner.(*ssa.Alloc)
+	if !ok {
+		return false
+	}
+	cl, idx := callRes(km.CellOrigin(target))
+	if cl == nil {
+		return false
+	}
+	g := km.StaticCallee(cl.Common())
+	if g == nil || g != ia.Parent() {
+		return false
+	}
+	loads := 0
+	for _, b := range g.Blocks {
+		ret, ok := b.Instrs[len(b.Instrs)-1].(*ssa.Return)
+		if !ok {
+			continue
+		}
+		rv := km.ReturnValues(ret)
+		if idx >= len(rv) {
+			return false
+		}
+		v := km.Unwrap(rv[idx])
+		if _, isC := v.(*ssa.Const); isC {
+			continue
+		}
+		if u, isU := v.(*ssa.UnOp); isU && u.Op == token.MUL && u.X == ssa.Value(ia) {
+			loads++
+			continue
+		}
+		return false
+	}
+	return loads > 0
+}
+
+// fieldStoredIn: some instruction writes field `field` of the struct cell addr directly.
+func fieldStoredIn(addr ssa.Value, field string) bool {
+	refs := addr.Referrers()
+	if refs == nil {
+		return false
+	}
+	for _, ref := range *refs {
+		if fa, ok := ref.(*ssa.FieldAddr); ok && fa.X == addr && fieldNameOf(fa) == field {
+			for _, r2 := range *fa.Referrers() {
+				if st, ok := r2.(*ssa.Store); ok && st.Addr == ssa.Value(fa) {
+					return true
+				}
+			}
+		}
+	}
+	return false
 }
 
 type honourPoint struct {
@@ -733,11 +796,56 @@ func checkVerifierListFresh(c *km.Ctx, s *km.Sem, rule string) {
 func checkExpiry(c *km.Ctx, s *km.Sem, consumers []claimsConsumer) {
 	r := c.R
 	notExpTime := primNotExpiredTime()
+	// a consumer that only parses and validates, handing the claims struct back to its callers, is honoured where
+	// they use it: each of its call sites takes its place
+	var expanded []claimsConsumer
 	for _, cons := range consumers {
+		res := cons.fn.Signature.Results()
+		if res.Len() == 0 || km.NamedTypeOf(res.At(0).Type()) != cons.typ {
+			expanded = append(expanded, cons)
+			continue
+		}
+		n := 0
+		for _, cs := range c.G.Callers[cons.fn] {
+			cl, ok := cs.Instr.(*ssa.Call)
+			if !ok {
+				continue
+			}
+			var cell ssa.Value
+			for _, ref := range *cl.Referrers() {
+				if ex, ok := ref.(*ssa.Extract); ok && ex.Index == 0 {
+					for _, r2 := range *ex.Referrers() {
+						if st, ok := r2.(*ssa.Store); ok && st.Val == ssa.Value(ex) {
+							cell = st.Addr
+						}
+					}
+				}
+			}
+			expanded = append(expanded, claimsConsumer{cs.Caller, cl, cons.typ, cell})
+			n++
+		}
+		if n == 0 {
+			r.AnchorLost("R-C04-4", "callers of the claims-returning consumer "+km.FuncName(cons.fn))
+		}
+	}
+	sort.SliceStable(expanded, func(i, j int) bool { return posOf(c, expanded[i].call) < posOf(c, expanded[j].call) })
+	remints := func(fn *ssa.Function, typ string) bool {
+		for _, ci := range km.CallsIn(fn) {
+			if !strings.HasSuffix(km.CalleeFull(ci.Common()), "jwt.Builder).Claims") {
+				continue
+			}
+			a := km.CallArgs(ci.Common())
+			if km.NamedTypeOf(km.Unwrap(a[len(a)-1]).Type()) == typ {
+				return true
+			}
+		}
+		return false
+	}
+	for _, cons := range expanded {
 		fn := cons.fn
 		switch cons.typ {
 		case KMD + ".authInfoJWT":
-			if fn.Name() == "updateAuthJWTWithNewAuthLevel" {
+			if remints(fn, cons.typ) {
 				// re-mint with the same exp: not an honour point; require that Expiration is not rewritten
 				rewritten := false
 				km.Instrs(fn, func(in ssa.Instruction) {
